@@ -11,8 +11,9 @@ from props.common import *
 from props.c11_util import *
 
 FINISH = dict(level='proof',
-              technique='Coq theorems about the executable surjection-proof model (Properties_C11.v: parser exactness and round trips, verify rejection clauses, initialize soundness) + differential correspondence of the model with the C implementation built from the working tree, with a model-side/Python adversarial prover for out-of-range scalars',
-              trusted=TRUSTED_COMMON + ['completeness (generate => verify) is NOT proved in Coq: it is sampled (every honest chain must verify on the implementation) and compared with the model',
+              technique='Coq theorems about the executable surjection-proof model (Properties_C11.v: parser exactness and both round trips, verify exact characterisation and rejection clauses, initialize soundness / exact subset size / exact iteration limit, generate => verify under MathFacts) + differential correspondence of the model with the C implementation built from the working tree, with a Python adversarial prover choosing every free scalar (small forged scalars re-encoded as s+n)',
+              trusted=TRUSTED_COMMON + ['theorems marked [MF] (borromean_single_ring_sign_verifies, generate_verifies) assume MathFacts (group law of the curve, p and n prime) and n < 2^256 as explicit premises; generate_verifies additionally assumes: one ring key per set bitmap bit, no ring key at infinity, hash-derived forged scalars non-zero',
+                                        'the premises of the [MF] theorems cannot be instantiated on a toy curve inside Coq (every hash-derived scalar overflows when n < 2^255); their satisfiability is observed instead: every honest initialize -> generate -> verify chain of the run ends in 1 on the implementation and on the model',
                                         'Model/Borromean.v (shared ring-signature model) is compared with the C code only through the surjection / whitelist / rangeproof entry points'])
 
 def runners(chk):
